@@ -811,6 +811,19 @@ def correspondence(ctx, res):
 
 def oracle(ctx, res, pairs=None):
     cases, outs = pairs or evaluated(ctx)
+    diff = table_diff() if pairs is None else []
+    if diff:
+        # the live table is not the pinned one: look at slices around the differing rows right away
+        ctx.notes.append("live constraint table differs from the pinned one: %s" % json.dumps(diff)[:1500])
+        extra = cases_for_diff(diff)
+        cases, outs = list(cases) + extra, list(outs) + run_cases(extra, 8)
+    _oracle(ctx, res, cases, outs)
+    for v in res.violations:
+        if diff:
+            v["expected"] = dict(v.get("expected") or {}, differing_rows=diff)
+
+
+def _oracle(ctx, res, cases, outs):
     for c, o in zip(cases, outs):
         if "status" not in o:
             continue
@@ -847,25 +860,17 @@ def cases_for_diff(diff):
 
 
 def search(ctx, res, broken):
-    diff = table_diff()
-    if diff:
-        ctx.notes.append("live constraint table differs from the pinned one: %s" % json.dumps(diff)[:1500])
-        cases = cases_for_diff(diff)
-        outs = run_cases(cases, 8)
-        r2 = Result()
-        oracle(ctx, r2, (cases, outs))
-        res.evaluations += r2.evaluations
-        for v in r2.violations:
-            v["expected"] = dict(v.get("expected") or {}, differing_rows=diff)
-            res.violations.append(v)
-        if res.violations:
-            return
     cases = list(grid_C()) + list(grid_D()) + list(grid_F()) + list(grid_A()) + list(grid_B())
     if not ctx.thorough:
         rng = ctx.sub_rng("search")
         cases = cases[:1200] + rng.sample(cases[1200:], 6000)
     outs = run_cases(cases, 8)
     oracle(ctx, res, (cases, outs))
+    diff = table_diff()
+    if diff:
+        ctx.notes.append("live constraint table differs from the pinned one: %s" % json.dumps(diff)[:1500])
+        for v in res.violations:
+            v["expected"] = dict(v.get("expected") or {}, differing_rows=diff)
 
 
 def replay(ctx, payload):
